@@ -91,6 +91,10 @@ pub struct Recorder {
     pub crash_fired: bool,
     pub probe_yield: u32,
     pub link_batches: u64,
+    /// number of probes of the built job (crash plans name a probe modulo this)
+    pub n_probes: u32,
+    /// how many hosts had a thread panic with the injected message
+    pub crash_site: Option<(u32, CoordT, u32)>,
 }
 
 #[derive(Clone, Debug, Serialize, serde::Deserialize, PartialEq, Eq)]
